@@ -321,6 +321,11 @@ def run(ctx):
                     key=('K4', q, 'nonces', 'auth' if ex_auth else 'child'), site=st, detail={'keyseed': tq.text(t, 400)})
     ctx.floor('K4 KEYMAT derivation sites', nsites, 2)
 
+    # g^ir in SKEYSEED / KEYMAT is computed with the private value of the exchange it belongs to: the DH object of our own outstanding
+    # request is not overwritten while the peer's request is answered
+    from .c01 import dh_writers
+    dh_writers(ctx, 'K4')
+
     # ---------------------------------------------------------------- K5
     check_tables(ctx)
     # ---------------------------------------------------------------- K6
